@@ -246,10 +246,15 @@ fn finalize_synchronization(
     insertion_ctx: &InsertionContext,
     unassigned: HashSet<Job>,
 ) {
+    // NOTE conditional jobs (e.g. reload markers) can be listed as required in the source solution while the new
+    // one keeps them as ignored: every job has to be listed only once
+    let ignored = new_insertion_ctx.solution.ignored.iter().cloned().collect::<HashSet<_>>();
+
     new_insertion_ctx.solution.unassigned.extend(
         unassigned
             .into_iter()
             .chain(insertion_ctx.solution.required.iter().cloned())
+            .filter(|job| !ignored.contains(job))
             .map(|job| (job, UnassignmentInfo::Unknown)),
     );
 
